@@ -1,5 +1,6 @@
 import PcfgVerif.Properties.ProbsCore
 import PcfgVerif.Lemmas.SoftFloatLemmas
+import PcfgVerif.Generated.CliOptions
 /-!
 # C06 — the saved grammar is the relative-frequency model of the segmentation
 
@@ -75,5 +76,21 @@ theorem C06_sorted_binary64_any_total (total : Nat) (items : List (α × Nat)) :
 /-- three quotients as CPython computes them (tests, labelled as such): `1/3`, `2/3`, `1/10` -/
 example : SF.toBits (SF.ratio 1 3) = 0x3FD5555555555555 ∧ SF.toBits (SF.ratio 2 3) = 0x3FE5555555555555 ∧
     SF.toBits (SF.ratio 1 10) = 0x3FB999999999999A := by decide +kernel
+
+/-- **the coverage the user asked for is the coverage `withMarkov` receives** (command-line glue of `trainer.py`, regenerated from
+the source on every run): `--coverage`, `--ngram` and `--alphabet` are parsed with their own type, default to the program's
+defaults, and reach `program_info` by one plain assignment from the parsed value — no `or`, no second default that would turn an
+explicit `--coverage 0` (only the Markov structure) into the default coverage. -/
+theorem C06_cli_passes_coverage :
+    Generated.CliOptions.trainerAssign.filter (fun a => a.2.1 == "coverage") =
+      [("parse_command_line", "coverage", "args.coverage")] ∧
+    Generated.CliOptions.trainerAssign.filter (fun a => a.2.1 == "ngram") = [("parse_command_line", "ngram", "args.ngram")] ∧
+    Generated.CliOptions.trainerAssign.filter (fun a => a.2.1 == "alphabet_size") =
+      [("parse_command_line", "alphabet_size", "args.alphabet")] ∧
+    ("--coverage", "program_info['coverage']", "float", "'store'", "None", "None") ∈ Generated.CliOptions.trainerOptions ∧
+    ("--ngram", "program_info['ngram']", "int", "'store'", "None", "None") ∈ Generated.CliOptions.trainerOptions ∧
+    ("--alphabet", "program_info['alphabet_size']", "int", "'store'", "None", "None") ∈ Generated.CliOptions.trainerOptions ∧
+    Generated.CliOptions.trainerAssign.all (fun a => a.2.1 != "<dynamic>") = true := by
+  decide
 
 end Pcfg.C06
